@@ -413,6 +413,35 @@ theorem slab_inv {A : Nat} {s : Slab} {live : List Nat} {ob : List (Nat × Nat)}
   have := hM.hdr_disj f hf
   simpa [fragDisj] using this
 
+/-- Every object of every fragment lies inside the fragment, for every slab state whatsoever
+    (any `total_count`, i.e. after arbitrarily many grows, any `final_size`): the `count` objects
+    `grow` links into a new fragment at `a` are the slots `a + 16 + i·final_size`, `i < count`, and
+    the last of them ends exactly at the end of the `count·final_size + 16` bytes asked from the
+    parent.  (`slab_inv` carries this through every history; this is the single-grow fact.) -/
+theorem slab_fragment_holds_all_objects (s : Slab) (a : Nat) :
+    (slabGrow s a).frags = s.frags ++ [(a, slabGrowCount s * s.finalSize + slabFragHdr)] ∧
+    (∀ y ∈ slabObjs (a + slabFragHdr) s.finalSize (slabGrowCount s),
+      a + slabFragHdr ≤ y ∧ y + s.finalSize ≤ a + (slabGrowCount s * s.finalSize + slabFragHdr)) ∧
+    (0 < slabGrowCount s →
+      a + slabFragHdr + (slabGrowCount s - 1) * s.finalSize + s.finalSize =
+        a + (slabGrowCount s * s.finalSize + slabFragHdr)) := by
+  refine ⟨rfl, ?_, ?_⟩
+  · intro y hy
+    obtain ⟨i, hi, rfl⟩ := mem_slabObjs.mp hy
+    have h1 : (i + 1) * s.finalSize ≤ slabGrowCount s * s.finalSize := Nat.mul_le_mul_right _ hi
+    have h2 : (i + 1) * s.finalSize = i * s.finalSize + s.finalSize := Nat.succ_mul _ _
+    omega
+  · intro hpos
+    have h2 : (slabGrowCount s - 1 + 1) * s.finalSize = (slabGrowCount s - 1) * s.finalSize + s.finalSize :=
+      Nat.succ_mul _ _
+    rw [Nat.sub_add_cancel hpos] at h2
+    omega
+
+/-- the 9th grow of a slab of 24-byte objects (87296 objects, 2 MB): still every object inside -/
+example : slabGrowCount { hdr := 0, finalSize := 24, total := 87296, freelist := [], frags := [] } = 87296 ∧
+    slabGrowReq { hdr := 0, finalSize := 24, total := 87296, freelist := [], frags := [] } = 87296 * 24 + 16 := by
+  decide
+
 /-- In every state reachable by `slab_alloc` / `slab_free` (freed objects are reused, LIFO) over
     a parent that answers with fresh memory at multiples of `A`: the object `slab_alloc` returns
     is a slot of one fragment obtained from the parent (behind the fragment header, `final_size`
